@@ -47,13 +47,14 @@ def pushZeros (out : ByteArray) (n : Nat) : ByteArray := Id.run do
 
 /-- Merkle–Damgård padding: `msg ‖ 0x80 ‖ 0* ‖ len`, total a multiple of `block`;
 `lenBytes` is the width of the length field (8 for MD5/SHA-1/SHA-256, 16 for SHA-512), `be` its
-endianness.  The bit length is reduced mod 2^64 (inputs here are far smaller). -/
-def mdPad (msg : ByteArray) (block lenBytes : Nat) (be : Bool) : ByteArray :=
+endianness.  `pre` (a multiple of `block`) is the number of bytes already absorbed before `msg`; it
+only enters the length field.  The bit length is reduced mod 2^64 (inputs here are far smaller). -/
+def mdPad (msg : ByteArray) (block lenBytes : Nat) (be : Bool) (pre : Nat := 0) : ByteArray :=
   let n := msg.size
   let used := (n + 1 + lenBytes) % block
   let z := if used == 0 then 0 else block - used
   let o := pushZeros (msg.push 0x80) (z + (lenBytes - 8))
-  let bits : UInt64 := (n * 8).toUInt64
+  let bits : UInt64 := ((pre + n) * 8).toUInt64
   if be then pushBE64 o bits else pushLE64 o bits
 
 end TdModel.Prim
